@@ -701,3 +701,22 @@ Proof.
   rewrite H in H'. inversion H'; subst ts' es.
   apply (contiguous_concat bs ts 0 ltac:(lia) X). apply C; reflexivity.
 Qed.
+
+(** every token is cut at a state reachable by [steps]: whatever [steps] preserves holds where a
+    token starts *)
+Lemma scan_all_forall m (P : state -> Prop) (Q : token -> Prop) :
+  (forall k st st', steps k st st' -> P st -> P st') ->
+  (forall st0 st' t, P st0 -> tok_at st0 st' t -> Q t) ->
+  forall fuel st ts es, P st -> scan_all fuel m st = Done ts es -> Forall Q ts.
+Proof.
+  intros HP HQ. induction fuel as [|f IH]; intros st ts es Hst H; [discriminate|].
+  cbn [scan_all] in H.
+  destruct (scan_ok m (S (fuel_of st)) st) as [(st' & H1 & [K1 K2] & D1)|(t & st0 & st' & H1 & [K1 K2] & T1)];
+    [unfold fuel_of; lia| |]; rewrite H1 in H.
+  - inversion H; subst. constructor.
+  - destruct (scan_all f m st') as [|ts' es'] eqn:E; [discriminate|]. inversion H; subst.
+    assert (P0 : P st0) by (eapply HP; eassumption).
+    constructor.
+    + eapply HQ; eassumption.
+    + eapply IH; [|exact E]. eapply HP; [apply (ta_steps _ _ _ T1)|exact P0].
+Qed.
